@@ -68,6 +68,15 @@ func runC03(c *Ctx) {
 			if callee := cv.Call.StaticCallee(); callee != nil && recvNamed(callee) == ak && w.Expr(cv.Call.Args[0]) == "p0" && errorResultIndex(callee) == 0 {
 				refresh = cv
 			}
+			// ... or a function of the package given the key's agent, in whose tree identities are removed
+			if callee := cv.Call.StaticCallee(); refresh == nil && callee != nil && w.InRepo(callee) && callee.Blocks != nil && callee.Signature.Recv() == nil &&
+				callee.Signature.Results().Len() == 1 && errorResultIndex(callee) == 0 && len(w.invokeOfDeep(callee, "Remove")) > 0 {
+				for _, a := range cv.Call.Args {
+					if w.Expr(a) == "p0."+fAgent {
+						refresh = cv
+					}
+				}
+			}
 		}
 	}
 	nAdd := 0
@@ -330,7 +339,14 @@ func runC03(c *Ctx) {
 				if !ok || !l.Pol {
 					return false
 				}
-				if !strings.HasSuffix(w.Expr(fc.Call.Value), "."+fOpt+".KeyRefreshFilter") {
+				fex := w.Expr(fc.Call.Value)
+				if p, isParam := throughCell(strip(fc.Call.Value)).(*ssa.Parameter); isParam && p.Parent() == refreshFn {
+					// the filter handed to the refresh function by the certificate step
+					if i := paramIndex(p); i >= 0 && i < len(refresh.Call.Args) {
+						fex = w.ExprIn(add, refresh.Call.Args[i])
+					}
+				}
+				if !strings.HasSuffix(fex, "."+fOpt+".KeyRefreshFilter") {
 					return false
 				}
 				return len(fc.Call.Args) == 1 && elem != nil && fc.Call.Args[0] == elem
